@@ -203,11 +203,67 @@ replace %s => %s
 	// timer semantics that come with a go >= 1.23 main module
 	bdir := filepath.Join(scratch, "b")
 	must(os.MkdirAll(filepath.Join(bdir, "scen"), 0755))
-	must(os.WriteFile(filepath.Join(bdir, "go.mod"), []byte(strings.Replace(gomod, "go 1.22.0", "go 1.25.0", 1)), 0644))
+	// a writable copy of the ZooKeeper client at the version /repo pins, so that its map-order sites can be overlaid
+	zkmod := "github.com/go-zookeeper/zk"
+	zkdir, err := run(repl, goEnv, "go", "list", "-m", "-f", "{{.Dir}}", zkmod)
+	if err != nil || strings.TrimSpace(zkdir) == "" {
+		die(2, "locating %s: %v %s", zkmod, err, zkdir)
+	}
+	if out, err := run(verifDir, goEnv, "cp", "-r", strings.TrimSpace(zkdir), filepath.Join(scratch, "zk")); err != nil {
+		die(2, "copy zk: %v %s", err, out)
+	}
+	if out, err := run(verifDir, goEnv, "chmod", "-R", "u+w", filepath.Join(scratch, "zk")); err != nil {
+		die(2, "chmod zk: %v %s", err, out)
+	}
+	// generics in the rewritten range sites need language version 1.18 (still per-loop variables, as before)
+	must(os.WriteFile(filepath.Join(scratch, "zk", "go.mod"), []byte("module "+zkmod+"\n\ngo 1.18\n"), 0644))
+	bgomod := strings.Replace(gomod, "go 1.22.0", "go 1.25.0", 1) + fmt.Sprintf("\nreplace %s => %s\n", zkmod, filepath.Join(scratch, "zk"))
+	must(os.WriteFile(filepath.Join(bdir, "go.mod"), []byte(bgomod), 0644))
 	must(os.WriteFile(filepath.Join(bdir, "go.sum"), sum, 0644))
 	if out, err := run(verifDir, goEnv, "cp", "-r", filepath.Join(verifDir, "scen", "s3"), filepath.Join(bdir, "scen", "s3")); err != nil {
 		die(2, "copy scen/s3: %v %s", err, out)
 	}
+}
+
+// addRuntimeSeam points the two runtime sites that decide user-visible order from unpinnable
+// per-thread randomness (select's poll order, the tie-break of simultaneous bubbled timers) at a
+// stream the scenario seeds (overlayfiles/runtime). Only the go1.26.8 bubble binaries get it.
+func addRuntimeSeam(overlay, ovDir string) {
+	out, err := run(verifDir, goEnv, "go1.26.8", "env", "GOROOT")
+	if err != nil {
+		die(2, "go1.26.8 env GOROOT: %v %s", err, out)
+	}
+	rt := filepath.Join(strings.TrimSpace(out), "src", "runtime")
+	var ov struct{ Replace map[string]string }
+	data, err := os.ReadFile(overlay)
+	must(err)
+	must(json.Unmarshal(data, &ov))
+	patchN := func(file string, olds, news []string) {
+		src, err := os.ReadFile(filepath.Join(rt, file))
+		must(err)
+		for i, old := range olds {
+			if bytes.Count(src, []byte(old)) != 1 {
+				die(2, "runtime seam: %s does not contain exactly one %q (toolchain differs from the one this seam was written for)", file, old)
+			}
+			src = bytes.Replace(src, []byte(old), []byte(news[i]), 1)
+		}
+		dst := filepath.Join(ovDir, "runtime_"+file)
+		must(os.WriteFile(dst, src, 0644))
+		ov.Replace[filepath.Join(rt, file)] = dst
+	}
+	patch := func(file, old, new string) { patchN(file, []string{old}, []string{new}) }
+	patch("select.go", "j := cheaprandn(uint32(norder + 1))", "j := verifRandn(uint32(norder + 1))")
+	patch("time.go", "t.rand = cheaprand()", "t.rand = verifRand()")
+	// race builds randomize the run queue (randomizeScheduler = raceenabled): same stream
+	patchN("proc.go", []string{"next && randn(2) == 0", "\t\t\tj := cheaprandn(i + 1)\n\t\t\tbatch[i], batch[j]", "\t\t\tj := cheaprandn(i + 1)\n\t\t\tpp.runq[off(i)], pp.runq[off(j)]"},
+		[]string{"next && verifRandn(2) == 0", "\t\t\tj := verifRandn(i + 1)\n\t\t\tbatch[i], batch[j]", "\t\t\tj := verifRandn(i + 1)\n\t\t\tpp.runq[off(i)], pp.runq[off(j)]"})
+	add, err := os.ReadFile(filepath.Join(verifDir, "overlayfiles", "runtime", "zz_verif_rand.go.txt"))
+	must(err)
+	dst := filepath.Join(ovDir, "runtime_zz_verif_rand.go")
+	must(os.WriteFile(dst, add, 0644))
+	ov.Replace[filepath.Join(rt, "zz_verif_rand.go")] = dst
+	data, _ = json.MarshalIndent(ov, "", " ")
+	must(os.WriteFile(overlay, data, 0644))
 }
 
 func must(err error) {
@@ -301,6 +357,17 @@ func buildScenario(b *Batch) *builtBin {
 		die(2, "instrumenting /repo failed (exit 2: build trouble, not a violation): %v\n%s", err, out)
 	}
 	logf("%s", strings.TrimSpace(out))
+	if b.Seams.ZkMap {
+		out, err = run(scratch, goEnv, filepath.Join(verifDir, "bin", "instrument"), "-dir", filepath.Join(scratch, "zk"), "-out", ovDir+"zk",
+			"-overlay", overlay, "-merge", overlay, "-maporder", "all", "-stats", statsFile+".zk")
+		if err != nil {
+			die(2, "instrumenting the ZooKeeper client copy failed (exit 2: build trouble, not a violation): %v\n%s", err, out)
+		}
+		logf("zk client: %s", strings.TrimSpace(out))
+	}
+	if b.Bubble {
+		addRuntimeSeam(overlay, ovDir)
+	}
 	if b.Prepare != nil {
 		b.Prepare(overlay)
 	}
@@ -364,7 +431,9 @@ func workerEnv(b *Batch, prop string, extra ...string) []string {
 	}
 	env = append(env, "VW_SCEN="+b.Scen, "VW_CFG="+b.Cfg, "VW_PROP="+prop, "VW_OWN="+own+",C17")
 	if b.Bubble {
-		env = append(env, "GOMAXPROCS=1", "GODEBUG=asyncpreemptoff=1")
+		// one P, no asynchronous preemption, no garbage collector: nothing but the program's own blocking
+		// decides which goroutine runs next inside a bubble
+		env = append(env, "GOMAXPROCS=1", "GODEBUG=asyncpreemptoff=1,randautoseed=0", "GOGC=off")
 	} else {
 		env = append(env, "GOMAXPROCS=2")
 	}
@@ -1080,7 +1149,7 @@ func doDeterminism(prop string, spec *PropSpec, tier string, seed uint64) int {
 						fmt.Sprintf("VW_FROM=%d", chunk*40), fmt.Sprintf("VW_TO=%d", chunk*40+40))
 					env = append(env, "GOMAXPROCS="+p)
 					if b.Bubble {
-						env = append(env, "GODEBUG=asyncpreemptoff=1")
+						env = append(env, "GODEBUG=asyncpreemptoff=1,randautoseed=0", "GOGC=off")
 					}
 					wo := runWorker(bb.path, env, filepath.Join(scratch, fmt.Sprintf("det-%d-%d.json", bi, n)), 10*time.Minute)
 					h := "noresult"
